@@ -14,7 +14,7 @@ from harness.common import VERIF, PY
 from checks.pool import run_parallel, pyenv
 
 RUN = os.path.join(VERIF, "harness", "transport_run.py")
-ITEMS = ["H", "HC", "RF", "CB", "RS", "E4L", "E5L", "E5N", "BS", "B3", "TR", "TRC", "E0", "NJ", "S202", "S203"]
+ITEMS = ["H", "HC", "RF", "CB", "RS", "E4L", "E5L", "E5N", "BS", "B3", "B103", "B104", "TR", "TRC", "E0", "NJ", "S202", "S203"]
 
 
 def run(ctx):
@@ -32,6 +32,8 @@ def run(ctx):
     else:
         ctx.model("MC_Transport", "MC_Transport_4.cfg", workers=16, timeout=1500, heap="8g")
         extra = [{"w": [rnd.choice(ITEMS) for _ in range(rnd.randint(4, 6))]} for _ in range(2500)]
+    # one long history of faults that produce no response text, on a proxy with an attached History
+    extra.append({"w": ["H"] + ["E5L"] * 24})
     allw = words + extra
     nparts = 8
     cmds, files = [], []
